@@ -118,5 +118,65 @@ impl AnyHost {
 //@end
 }
 
+// ===================================================================== `impl Host for http::Uri` (uri.rs, feature `uri`)
+/// http::Uri (both supported major versions have the same accessors): `host()`, `port_u16()`, `scheme_str()`
+#[verifier::external_body]
+pub struct Uri { _p: () }
+impl Uri {
+    pub uninterp spec fn spec_host(&self) -> Option<Seq<u8>>;
+    pub uninterp spec fn spec_port(&self) -> Option<u16>;
+    pub uninterp spec fn spec_scheme(&self) -> Option<Seq<u8>>;
+    #[verifier::external_body]
+    pub fn host(&self) -> (r: Option<&Str>)
+        ensures r is Some == self.spec_host() is Some, r matches Some(h) ==> Some(h.bytes()) == self.spec_host(),
+    { unimplemented!() }
+    #[verifier::external_body]
+    pub fn port_u16(&self) -> (r: Option<u16>) ensures r == self.spec_port() { unimplemented!() }
+    #[verifier::external_body]
+    pub fn scheme_str(&self) -> (r: Option<&Str>)
+        ensures r is Some == self.spec_scheme() is Some, r matches Some(h) ==> Some(h.bytes()) == self.spec_scheme(),
+    { unimplemented!() }
+}
+/// uri.rs `scheme_to_port` (a table of well-known default ports; its CONTENT is not a listed property — the function is
+/// hashed in inventory.json): some function of the scheme
+pub uninterp spec fn default_port_of(scheme: Option<Seq<u8>>) -> Option<u16>;
+#[verifier::external_body]
+pub fn scheme_to_port(scheme: Option<&Str>) -> (r: Option<u16>)
+    ensures r == default_port_of(match scheme { Some(s) => Some(s.bytes()), None => None }),
+{ unimplemented!() }
+/// a string literal used as a value (rule R15b): an opaque `&Str`, its content is not modelled
+#[verifier::external_body]
+pub fn vstr_lit(s: &'static str) -> (r: &'static Str) { unimplemented!() }
+
+impl Uri {
+//@extract file=actix-tls/src/connect/uri.rs item="impl Host for http_1::Uri / fn hostname" ret=r props=C19 name=uri::hostname_1 sig_replace="&str=>&Str" str_lits
+//@spec
+    ensures self.spec_host() matches Some(h) ==> r.bytes() == h,   // [C19] the URI's host is what is resolved and verified
+//@end
+//@extract file=actix-tls/src/connect/uri.rs item="impl Host for http_1::Uri / fn port" ret=r props=C19 name=uri::port_1
+//@spec
+    ensures
+        // an explicit port in the URI is the port dialled; only without one does the scheme's default apply   [C19]
+        self.spec_port() is Some ==> r == self.spec_port(),
+        self.spec_port() is None ==> r == default_port_of(self.spec_scheme()),
+//@end
+}
+pub struct Uri02(pub Uri);
+impl Uri02 {
+    pub fn host(&self) -> (r: Option<&Str>) ensures r is Some == self.0.spec_host() is Some, r matches Some(h) ==> Some(h.bytes()) == self.0.spec_host() { self.0.host() }
+    pub fn port_u16(&self) -> (r: Option<u16>) ensures r == self.0.spec_port() { self.0.port_u16() }
+    pub fn scheme_str(&self) -> (r: Option<&Str>) ensures r is Some == self.0.spec_scheme() is Some, r matches Some(h) ==> Some(h.bytes()) == self.0.spec_scheme() { self.0.scheme_str() }
+//@extract file=actix-tls/src/connect/uri.rs item="impl Host for http_0_2::Uri / fn hostname" ret=r props=C19 name=uri::hostname_02 sig_replace="&str=>&Str" str_lits
+//@spec
+    ensures self.0.spec_host() matches Some(h) ==> r.bytes() == h,   // [C19]
+//@end
+//@extract file=actix-tls/src/connect/uri.rs item="impl Host for http_0_2::Uri / fn port" ret=r props=C19 name=uri::port_02
+//@spec
+    ensures
+        self.0.spec_port() is Some ==> r == self.0.spec_port(),   // [C19]
+        self.0.spec_port() is None ==> r == default_port_of(self.0.spec_scheme()),
+//@end
+}
+
 } // verus!
 fn main() {}
